@@ -23,6 +23,50 @@ def design_mc(ctx):
     return PP.design_mc_pipeline(ctx)
 
 
+def sparse_gapped_world(rng):
+    """Few fragments, most of them gapped (two mates with uncovered sites in between), over 4-8 heterozygous SNVs: fragments
+    with the same first and last site but different inner sites, blocks nested in the gap of another fragment, components
+    that hang together by a single fragment."""
+    n = rng.randint(4, 8)
+    truth = [rng.choice([[0, 1], [1, 0]]) for _ in range(n)]
+    reads = []
+    shape = rng.choice(["random", "random", "twins", "nested"])
+    if shape != "random":
+        f = rng.randint(0, n - 4)
+        hp = lambda: rng.randint(0, 1)
+        mk = lambda first, last, gap: {"sample": "s1", "chrom": 0, "hap": hp(), "first": first, "last": last, "gap": gap, "copies": 1}
+        if shape == "twins":      # {f, f+1 | f+3} and {f | f+2, f+3}: same span, same number of sites, different inner sites
+            reads += [mk(f, f + 3, [f + 1, f + 3]), mk(f, f + 3, [f, f + 2])]
+        else:                     # {f | f+3} around the separate block {f+1, f+2}
+            reads += [mk(f, f + 3, [f, f + 3]), mk(f + 1, f + 2, None)]
+        rng.shuffle(reads)
+        for _ in range(rng.randint(0, 2)):      # further fragments entirely left or right of the structure
+            lo, hi = (0, f - 1) if rng.random() < 0.5 else (f + 4, n - 1)
+            if hi - lo >= 1:
+                a = rng.randint(lo, hi - 1)
+                reads.append(mk(a, rng.randint(a + 1, hi), None))
+        return {"seed": rng.randrange(10 ** 6), "chroms": [{"name": "chr1", "sites": [{"kind": "snv", "len": 1} for _ in range(n)]}],
+                "samples": ["s1"], "truth": {"s1": [truth]}, "reads": reads, "errfree": True, "ped": []}
+    for _ in range(rng.randint(2, 6)):
+        first = rng.randint(0, n - 2)
+        last = rng.randint(first + 1, min(n - 1, first + rng.choice([1, 2, 3, 4, 7])))
+        gap = None
+        if last - first >= 2 and rng.random() < 0.75:
+            a = rng.randint(first, last - 2)
+            b = rng.randint(a + 2, last)
+            gap = [a, b]
+        reads.append({"sample": "s1", "chrom": 0, "hap": rng.randint(0, 1), "first": first, "last": last, "gap": gap, "copies": 1})
+    if rng.random() < 0.5 and reads:        # a second fragment with the same span and the same number of sites, other inner sites
+        r = rng.choice(reads)
+        if r["last"] - r["first"] >= 3:
+            k = rng.randint(r["first"], r["last"] - 2)
+            reads.append(dict(r, gap=[k, k + 2], hap=rng.randint(0, 1)))
+            reads.append(dict(r, gap=[max(r["first"], k - 1), min(r["last"], k + 1)] if k - 1 >= r["first"] and k + 1 - (k - 1) >= 2 else [k, k + 2],
+                              hap=rng.randint(0, 1)))
+    return {"seed": rng.randrange(10 ** 6), "chroms": [{"name": "chr1", "sites": [{"kind": "snv", "len": 1} for _ in range(n)]}],
+            "samples": ["s1"], "truth": {"s1": [truth]}, "reads": reads, "errfree": True, "ped": []}
+
+
 def scenarios(ctx):
     rng = ctx.rng
     scs = []
@@ -37,6 +81,9 @@ def scenarios(ctx):
             o = {"tag": rng.choice(["PS", "HP"]), "max_coverage": rng.choice([15, 2, 3, 4])}
             if len(kinds) > 1 and rng.random() < 0.6:
                 o["only_snvs"] = True
+            if rng.random() < 0.3:
+                w = sparse_gapped_world(rng)
+                o.pop("only_snvs", None)
         else:
             quartet = rng.random() < 0.4
             ped = [["s1", "s2", "s3"]] + ([["s1", "s2", "s4"]] if quartet else [])
